@@ -109,6 +109,16 @@ def _deep(n):
     return x
 
 
+class UnprintableError(Exception):
+    def __str__(self):
+        raise RuntimeError("this exception cannot be printed")
+
+
+def _multiple(*excs):
+    from tartiflette.types.exceptions.tartiflette import MultipleException
+    return MultipleException(list(excs))
+
+
 FACTORIES = [
     lambda: None, lambda: True, lambda: False,
     lambda: 0, lambda: 1, lambda: -1, lambda: 2 ** 31 - 1, lambda: 2 ** 31, lambda: -2 ** 31, lambda: -2 ** 31 - 1,
@@ -132,6 +142,9 @@ FACTORIES = [
     lambda: (lambda: 1), lambda: len, lambda: int, lambda: _closed_coro(), lambda: math,
     lambda: _selfref_list(), lambda: _selfref_dict(), lambda: _deep(60), lambda: NotImplemented, lambda: Ellipsis,
     lambda: memoryview(b"mv"),
+    # exceptions that are awkward to report: unprintable, oversized (3.12 int->str limit), the library's own container
+    lambda: UnprintableError(), lambda: ValueError(10 ** 5000), lambda: _multiple(), lambda: _multiple(ValueError("inner"), KeyError("k")),
+    lambda: decimal.Decimal("1e999"), lambda: decimal.Decimal("-1e999"), lambda: fractions.Fraction(10 ** 400, 3),
 ]
 
 
